@@ -35,6 +35,16 @@ Proof.
   rewrite H by auto. rewrite IH; auto.
 Qed.
 
+Lemma In_ins : forall x l y, In y (ins x l) <-> y = x \/ In y l.
+Proof.
+  induction l as [|z r IH]; intros y; simpl.
+  - intuition.
+  - destruct (x <? z) eqn:H1; [simpl; intuition|].
+    destruct (N.eqb_spec x z) as [->|H2]; simpl.
+    + intuition.
+    + rewrite IH. intuition.
+Qed.
+
 (* ---------- evaluation table ---------- *)
 Definition ev (w : world) (a : list node) (v0 : list bool) : list bool :=
   fold_left (fun vals nd => vals ++ [eval_node w vals nd]) a v0.
